@@ -35,6 +35,10 @@ def corpus():
                 progs.append("fn g(a: %s, b: %s) {\n  println(\"start\")\n  a %s %s\n  println(\"after stmt\")\n  let _ = a %s %s\n  println(\"after let\")\n}\ng(%s, %s)\n"
                              % (ty, ty, op, rhs, op, rhs, big, z))
     progs += CONTROL_FLOW
+    # string operators whose result goes straight into a local slot / an array / an argument
+    for op in ["==", "!=", "<", "<=", ">", ">=", ".."]:
+        progs.append("fn g(a: string, b: string) {\n  let c = a %s b\n  println(c)\n  var d = b %s a\n  println(d)\n  let u = [a %s b, b %s a]\n  println(u)\n  println(h(a %s b))\n}\n"
+                     "fn h(x) = x\ng(\"abc\", \"abc\")\ng(\"abc\", \"abd\")\ng(\"\", \"a\")\ng(\"h\u00e9\", \"h\u00e9\")\n" % (op, op, op, op, op))
     return progs
 
 
